@@ -180,10 +180,10 @@ PMax == 4
 \* finite differences of the value: only the terms that involve the changed voxel differ, their total
 \* weight is at most 2 wsum kmax^2 beta; each is evaluated in single precision (4 ulp allowed).
 \* PLS: four penalty terms change; each is a single-precision square root of a difference of squares of
-\* magnitude <= 64 (absolute error <= 2^-14 allowed per unit kappa and beta, four terms).
+\* magnitude <= 64 (absolute error <= 2^-14 allowed per unit kappa^2 and beta in total).
 \* In units of 2^-kv.
 FDVTol(c, kv) ==
-  LET cst == IF c.prior = "pls" THEN 256 * c.betaCeil * c.kmax2 ELSE PMax * c.betaCeil * c.wsum * c.kmax2 IN
+  LET cst == IF c.prior = "pls" THEN 64 * c.betaCeil * c.kmax2 ELSE PMax * c.betaCeil * c.wsum * c.kmax2 IN
   3 + (IF kv >= 20 THEN cst * 2^(kv - 20) ELSE cst \div 2^(20 - kv) + 1)
 \* convexity along e_i: h g_i(x) <= V(x + h e_i) - V(x) <= h g_i(x + h e_i)
 FDVBracket(c, r) ==
